@@ -11,7 +11,7 @@ LEVEL = "exploration"
 ENGINE = "E1"
 TECHNIQUE = "bounded exhaustive enumeration of capture-group rules x listings on the real code vs reference matcher with binding environments"
 RULE = ("families: (A) instruction-level captures: every item sequence of length 2..4 over {&a,&b,push} containing a "
-        "capture, optionally preceded by a non-capturing repeated/alternative/negated item, later occurrences also inside "
+        "capture, and every sequence with two or more captures preceded by each of 14 non-capturing items (repeated mnemonic, $and/$or/$not/$and_any_order with and without times, operand-level operators, $deref) on listings that start with instructions realising that item, later occurrences also inside "
         "$or/$not/$and-with-times; (B) operand-level captures: every pair of 'mov' items whose operand lists are drawn "
         "from {&x,&y,rax} (length 1..2), later occurrences inside operand-level $or/$not and in a following instruction; "
         "(C) prefix/extension operands (0x1/0x10, %r8/%r8d) as first, middle and last operand; (D) 11 and 25 distinct names, a register-family name as 11th name "
@@ -39,22 +39,32 @@ def bounds(tier):
     return {"L_AB": 3 if tier == "quick" else 4, "L_C": 2}
 
 
+MOVAB, PUSHA, PUSHB, RET, MOVM = ("mov", ["%rax", "%rbx"]), ("push", ["%rax"]), ("push", ["%rbx"]), ("ret", []), ("mov", ["(%rax)", "%rbx"])
+PREFIXES = [
+    ({"push": {"times": 2}}, [PUSHA, PUSHB]), ({"$or": ["mov", "push"]}, [PUSHA]), ({"$not": ["ret"]}, [MOVAB]),
+    ({"$and_any_order": ["mov", "push"]}, [PUSHA, MOVAB]), ({"mov": {"times": {"min": 0, "max": 1}}}, [MOVAB]),
+    ({"$and": ["mov", "push"]}, [MOVAB, PUSHA]), ({"$and": ["mov", "push"], "times": 2}, [MOVAB, PUSHA, MOVAB, PUSHB]),
+    ({"$or": ["mov", "push"], "times": 2}, [MOVAB, PUSHA]), ({"$not": ["ret"], "times": 2}, [MOVAB, PUSHA]),
+    ({"$and_any_order": ["mov", "push"], "times": {"min": 1, "max": 2}}, [PUSHA, MOVAB, MOVAB, PUSHB]),
+    ({"mov": ["rax"], "times": 2}, [MOVAB, MOVAB]), ({"mov": [{"$or": ["rax", "rbx"]}, {"$not": ["rcx"]}]}, [MOVAB]),
+    ({"mov": [{"$and_any_order": ["rax", "rbx"]}]}, [MOVAB]), ({"mov": [{"$deref": {"main_reg": "rax"}}]}, [MOVM]),
+]
+
+
 def fam_a(tier):
     rules = []
     items = ["&a", "&b", "push"]
-    # non-capturing items of every kind in front of the capture definitions: none of them may add a numbered group
-    prefixes = [None, {"push": {"times": 2}}, {"$or": ["mov", "push"]}, {"$not": ["ret"]},
-                {"$and_any_order": ["mov", "push"]}, {"mov": {"times": {"min": 0, "max": 1}}},
-                {"$and": ["mov", "push"]}, {"$and": ["mov", "push"], "times": 2}, {"$or": ["mov", "push"], "times": 2},
-                {"$not": ["ret"], "times": 2}, {"$and_any_order": ["mov", "push"], "times": {"min": 1, "max": 2}},
-                {"mov": ["rax"], "times": 2}, {"mov": [{"$or": ["rax", "rbx"]}, {"$not": ["rcx"]}]},
-                {"mov": [{"$and_any_order": ["rax", "rbx"]}]}, {"mov": [{"$deref": {"main_reg": "rax"}}]}]
+    # non-capturing items of every kind in front of the capture definitions: none of them may add a numbered group.
+    # Each prefix comes with instructions realising it, prepended to every listing (so the rule can actually match).
     for n in (2, 3, 4):
         for seq in itertools.product(items, repeat=n):
-            if not any(s.startswith("&") for s in seq):
-                continue
-            for pre in (prefixes if n <= 3 else prefixes[:1]):
-                rules.append(e1.RuleCase("A", ([pre] if pre else []) + list(seq), "ab", want=W))
+            if any(s.startswith("&") for s in seq):
+                rules.append(e1.RuleCase("A", list(seq), "ab", want=W))
+    for pi, (pre, _real) in enumerate(PREFIXES):
+        for n in (2, 3):
+            for seq in itertools.product(items, repeat=n):
+                if sum(1 for s in seq if s.startswith("&")) >= 2:
+                    rules.append(e1.RuleCase("Apre", [pre] + list(seq), f"abpre{pi}", want=W))
     for later in ({"$or": ["&a", "ret"]}, {"$not": ["&a"]}, {"$and": ["&a"], "times": 2}, {"$and_any_order": ["&a", "push"]},
                   {"$or": [{"$not": ["&a"]}, "&b"]}):
         for pat in (["&a", later], ["&a", "&b", later], ["&b", "&a", later, "&b"], ["&a", "push", later]):
@@ -258,8 +268,12 @@ def shards(tier):
 
 
 def build_lsets(h, tier):
+    import itertools as it
     ls = {"ab": e1.ListingSet(h, ALPHA_AB, bounds(tier)["L_AB"]), "c": e1.ListingSet(h, ALPHA_C, 2),
           "d": e1.ExplicitListingSet(h, fam_d_listings(h)), "d25": e1.ExplicitListingSet(h, fam_d25_listings()), "d10fam": e1.ExplicitListingSet(h, fam_d10_listings()), "f": e1.ListingSet(h, ALPHA_F, 2)}
+    tails = [[ALPHA_AB[i] for i in idx] for n in range(0, 4) for idx in it.product(range(len(ALPHA_AB)), repeat=n)]
+    for pi, (_pre, real) in enumerate(PREFIXES):
+        ls[f"abpre{pi}"] = e1.ExplicitListingSet(h, [list(real) + t for t in tails] + [[RET] + list(real) + t for t in tails[::5]])
     for fam in FAM_REGS:
         l1, l2 = fam_e_listings(fam)
         ls["e_" + fam] = e1.ExplicitListingSet(h, l1)
